@@ -472,6 +472,7 @@ func applyImpl(root *ast.Node, o c15Op, holes bool) (out string) {
 		if t.TypeSafe() == ast.V_STRING {
 			return "<skip>"
 		}
+		_, c15LenOnLazy, _ = ast.SimState(t)
 		n, err := t.Len()
 		return fmt.Sprint(n, " ", errc(err))
 	case 4:
@@ -638,6 +639,9 @@ func (v *JV) writeY(sb *strings.Builder) {
 // when the copied child is partially parsed; c15CopiedLazy records that it happened.
 var c15ReadLazyCopies, c15CopiedLazy bool
 
+// c15LenOnLazy: the node Len was just called on was partially parsed (exact precondition of F8)
+var c15LenOnLazy bool
+
 var c15Vals = []string{`1`, `"s"`, `null`, `{"n":1,"m":[true]}`, `[1,{"z":2}]`, `true`, `{}`, `[]`, `-2.5`, `{"b":1,"a":2}`}
 var c15Anys = []interface{}{5, "any", []int{1, 2}, map[string]interface{}{"x": 1.5}, nil, true}
 
@@ -661,6 +665,7 @@ func runC15(c *Ctx) Result {
 	c15ReadLazyCopies = t.Draw(simrt.Knobs, 8) == 0
 	c15CopiedLazy = false
 	nOps := 1 + g.d(12)
+	pendingKnown := ""
 	var hist []string
 	holes := false
 	sample := map[string]interface{}{"doc": clip(doc, 160), "dup_keys": dup}
@@ -748,9 +753,16 @@ func runC15(c *Ctx) Result {
 			}
 			if got != want {
 				sig := "op-result-differs:" + c15Names[o.Kind]
-				if o.Kind == 3 && i == 0 {
-					// Len on a partially parsed container: classify exactly (DESIGN F8)
-					sig = "Len:partial-count-on-lazy-node"
+				var gi, wi int
+				fmt.Sscanf(got, "%d", &gi)
+				fmt.Sscanf(want, "%d", &wi)
+				if o.Kind == 3 && c15LenOnLazy && strings.HasSuffix(got, " ok") && strings.HasSuffix(want, " ok") && gi < wi {
+					// Len on a partially parsed container counts the children parsed so far (F8, a
+					// documented quirk): recorded once per run, the history goes on
+					if pendingKnown == "" {
+						pendingKnown = fmt.Sprintf("step %d %s on %s: got %s, model %s", k, o, implNames[i], got, want)
+					}
+					continue
 				}
 				if strings.HasPrefix(got, "PANIC(") {
 					sig = "panic:" + c15Names[o.Kind]
@@ -762,6 +774,14 @@ func runC15(c *Ctx) Result {
 		if o.Kind >= 18 || o.Kind == 7 || o.Kind == 8 {
 			c.inc("fault_forced_representation_change")
 		}
+	}
+	if pendingKnown != "" {
+		defer func() {
+			if res.Sig == "" {
+				res.Sig = "C15:Len:partial-count-on-lazy-node"
+				res.Detail = pendingKnown + fmt.Sprintf(" | doc=%q history=%v", clip(doc, 200), hist)
+			}
+		}()
 	}
 	// final state
 	want := model.canonY()
